@@ -5,7 +5,7 @@
 From Coq Require Import List String ZArith Bool.
 From GG Require Import Base.Strs Model.Config Model.GoTypes Model.GoAst Model.Annots Model.Analyze Model.Driver
                        Extracted Exec Proofs.DriverProofs.
-From GG Require Proofs.OpsProofs Proofs.LocalProofs.
+From GG Require Proofs.OpsProofs Proofs.LocalProofs Proofs.PosProofs Properties.C17.
 Import ListNotations.
 Local Open Scope string_scope.
 
@@ -99,6 +99,26 @@ Theorem C11_suppression_is_file_local :
     x_suppressed (glob (oa ++ og ++ ob)%list) c q = x_suppressed (glob og) c q.
 Proof. exact LocalProofs.package_suppression_is_file_local. Qed.
 
+(* ... put together with C17_positioned_at_a_node_of_a_kept_file: every diagnostic of the four AST checkers stands at a node of a
+   kept file g, and whether it is suppressed is decided by g's own @ignore comments and exclude-checks - whatever ranges the other
+   files of the package were given, in whatever order *)
+Theorem C11_a_diagnostic_is_decided_by_its_own_file :
+  forall cfg p fs sup ops d,
+    LocalProofs.x_ranges_ok cfg p = true -> OpsProofs.x_pos_ok cfg p = true -> x_ignore_ops cfg p = Some ops ->
+    In d (x_imm cfg p fs sup ++ x_ctor cfg p fs sup ++ x_tonl cfg p fs sup ++ x_pkgo cfg p fs sup) ->
+    exists g og, In g (kept_files cfg p) /\ PosProofs.at_decl_of g (d_pos d) /\
+      ignore_ops_comments re_ignore kw_ignore g (List.concat (f_comments g)) = Some og /\
+      forall c, x_suppressed ops c (d_pos d) =
+                x_suppressed (match exclude_checks cfg with nil => og | cs => IgnoreSet.OpGlobal cs :: og end) c (d_pos d).
+Proof.
+  intros cfg p fs sup ops d Hr Hp Ho Hd.
+  destruct (C17.C17_positioned_at_a_node_of_a_kept_file cfg p fs sup d Hd) as (g & Hg & Hat & Hspan).
+  assert (Hok : LocalProofs.file_range_ok g = true).
+  { unfold LocalProofs.x_ranges_ok in Hr. apply andb_true_iff in Hr. destruct Hr as [Hr _]. rewrite forallb_forall in Hr. exact (Hr g Hg). }
+  destruct (LocalProofs.decided_by_own_file cfg p g ops (d_pos d) Hr Hp Ho Hg (Hspan Hok)) as (og & Hog & H).
+  exists g, og. repeat split; assumption.
+Qed.
+
 Print Assumptions C11_schedule_independent.
 Print Assumptions C11_two_schedules_agree.
 Print Assumptions C11_run_set_independent.
@@ -106,3 +126,4 @@ Print Assumptions C11_config_cell_is_write_once.
 Print Assumptions C11_shared_state_is_read_only_or_write_once.
 Print Assumptions C11_translator_understood_everything.
 Print Assumptions C11_suppression_is_file_local.
+Print Assumptions C11_a_diagnostic_is_decided_by_its_own_file.
